@@ -241,8 +241,68 @@ def _unit(draw, gv, T, profiles=False, allow_fuel=True):
                 rampq = draw(st.sampled_from(pool))
                 meta["rampq"] = rampq
                 a["ramp"] = rampq / dt0
+    if meta["SRT"] or meta["SDT"]:
+        _refreq(draw, a, meta, g)
     a["_uc"] = meta
     return g, a
+
+
+FINER = {"h": [(2, "30min"), (4, "15min"), (1, "60min")], "15min": [(3, "5min"), (1, "900s")]}
+COARSER = {"h": [(2, "2h"), (3, "3h")], "15min": [(2, "30min"), (4, "h")]}
+OFFS = {1: [0.0], 2: [-1.0, 1.0], 3: [-1.0, 0.0, 1.0], 4: [-2.0, -1.0, 1.0, 2.0]}
+PROFILE_KEYS = ("_ramp_lower_bounds", "_ramp_upper_bounds", "_ramp_lower_bounds_heat", "_ramp_upper_bounds_heat")
+
+
+def _refreq(draw, a, meta, g):
+    """Re-express the start / shutdown profiles in another `ramp_freq` (documented: 'the i-th element ... at i
+    timesteps of freq ramp_freq').  The oracle keeps speaking about grid steps (meta):
+    finer   - ramp_freq divides the grid step into k parts: k values per grid step whose mean is the value of the
+              grid step (a profile is a rate; the volume of the grid step is what the step-wise model can hold);
+    coarser - ramp_freq = k grid steps, all values of a profile equal: the profile lasts k times as many grid steps
+              at the same rate (any interpolation of a constant is that constant);
+    a ramp_freq that only spells the grid frequency differently ('60min' for 'h') changes nothing."""
+    mode = draw(st.sampled_from([None, None, None, "finer", "finer", "coarser"]))
+    if mode is None:
+        return
+    dt0 = meta["dt0"]
+    if mode == "finer":
+        k, name = draw(st.sampled_from(FINER[g["freq"]]))
+        for which in ("start", "shutdown"):
+            n = meta["SRT" if which == "start" else "SDT"]
+            if not n:
+                continue
+            deltas = []
+            for i in range(n):
+                floor_ = min(a[which + key][i] for key in PROFILE_KEYS if a.get(which + key) is not None)
+                d = draw(st.sampled_from([0.0, 0.0625, 0.125, 0.25])) / dt0
+                if floor_ - max(OFFS[k]) * d < 0:
+                    d = 0.0
+                deltas.append(d)
+            for key in PROFILE_KEYS:
+                if a.get(which + key) is not None:
+                    a[which + key] = [a[which + key][i] + o * deltas[i] for i in range(n) for o in OFFS[k]]
+        a["ramp_freq"] = name
+        meta["ramp_freq_mode"] = "finer:%d" % k if k > 1 else "alias"
+    else:
+        const = True
+        for which in ("start", "shutdown"):
+            for key in PROFILE_KEYS:
+                v = a.get(which + key)
+                if v is not None and len(set(v)) > 1:
+                    const = False
+        if not const:
+            return
+        k, name = draw(st.sampled_from(COARSER[g["freq"]]))
+        if (meta["SRT"] + meta["SDT"]) * k > 6:
+            return
+        for which, nk, pk, hk in (("start", "SRT", "start_prof", "start_prof_heat"), ("shutdown", "SDT", "shut_prof", "shut_prof_heat")):
+            if meta[nk]:
+                meta[nk] *= k
+                meta[pk] = [x for x in meta[pk] for _ in range(k)]
+                if meta.get(hk):
+                    meta[hk] = [x for x in meta[hk] for _ in range(k)]
+        a["ramp_freq"] = name
+        meta["ramp_freq_mode"] = "coarser:%d" % k
 
 
 @st.composite
@@ -366,7 +426,8 @@ def check_e2e(spec, out):
     a = spec["assets"][0]
     m = a["_uc"]
     dtv = tl.dt(g)
-    out.label("e2e", "unit:" + a["type"], "fuel" if "nf" in a["nodes"] else None)
+    out.label("e2e", "unit:" + a["type"], "fuel" if "nf" in a["nodes"] else None,
+              ("ramp_freq:" + m["ramp_freq_mode"]) if m.get("ramp_freq_mode") else None)
     r = eao_call(obs.Run, spec)
     if is_err(r):
         return out.fail("construction of a valid %s raised %s" % (a["type"], r.short()))
@@ -463,7 +524,8 @@ def check_point(spec, out):
     a = spec["assets"][0]
     m = a["_uc"]
     pat = list(spec["pattern"])
-    out.label("point", "unit:" + a["type"], "profiles" if (m["SRT"] or m["SDT"]) else "no_profiles")
+    out.label("point", "unit:" + a["type"], "profiles" if (m["SRT"] or m["SDT"]) else "no_profiles",
+              ("ramp_freq:" + m["ramp_freq_mode"]) if m.get("ramp_freq_mode") else None)
     built = eao_call(build.build_assets, spec)
     if is_err(built):
         return out.fail("construction of a valid %s raised %s" % (a["type"], built.short()))
